@@ -92,6 +92,47 @@ def run(ctx):
                     r = f(x, y)
                     if r[0] != "raise":
                         fail(f"nonkey: {nm} returns a value for a non-coefficient argument", {"op": nm, "args": [repr(x), repr(y)]}, "raise", r)
+    # objects that merely LOOK like a coefficient: equal to one under a permissive __eq__, or carrying one inside
+    # (an object that both compares equal to a coefficient AND hashes like it is that coefficient as far as a Python dict can tell:
+    #  outside the claimed domain; the objects below are equal to a key under == only, or not equal to any)
+    class Named:
+        def __init__(self, n): self.n = n
+        def __eq__(self, o): return o == self.n
+        __hash__ = None
+    objs = [Named("m"), Named("p")]
+    try:
+        from unittest import mock
+        objs.append(mock.ANY)
+    except Exception:
+        pass
+    try:
+        from pymwp import Monomial, Polynomial
+        objs += [Monomial("m"), Monomial("w"), Monomial("o"), Polynomial("m")]
+    except Exception:
+        pass
+    for j in objs:
+        for k in K + [j]:
+            for (x, y) in ((j, k), (k, j)):
+                for nm, f in (("prod", P), ("sum", A)):
+                    ev += 1; nj += 1
+                    r = f(x, y)
+                    if r[0] != "raise":
+                        fail(f"nonkey: {nm} returns a value for an argument that is not a coefficient (an object of class {type(j).__name__})",
+                             {"op": nm, "args": [type(x).__name__ if not isinstance(x, str) else x, type(y).__name__ if not isinstance(y, str) else y]}, "raise", str(r)[:80])
+    # arity: exactly two operands
+    for nm, fn in (("prod", S.prod_mwp), ("sum", S.sum_mwp)):
+        for args in (("m",), ("x",), (), ("m", "w", "p"), (["m", "w"],), ("mw",)):
+            ev += 1; nj += 1
+            try:
+                r = fn(*args)
+                fail(f"nonkey: {nm} returns a value when called with {len(args)} operand(s)", {"op": nm, "args": [repr(a) for a in args]}, "raise", repr(r)[:60])
+            except Exception:
+                pass
+        try:
+            if fn(scalar1="m", scalar2="w") != fn("m", "w"):
+                fail(f"total: {nm} called with its documented parameter names differs", {"op": nm, "kwargs": True}, fn("m", "w"), None)
+        except Exception as e:
+            fail(f"total: {nm}(scalar1=, scalar2=) raises", {"op": nm, "kwargs": True}, "a coefficient", repr(e)[:80])
     # junk x junk (two different non-coefficients)
     for x, y in itertools.product(JUNK + NONSTR, JUNK + NONSTR):
         for nm, f in (("prod", P), ("sum", A)):
